@@ -307,6 +307,16 @@ def gen_instant(rng, k):
 
 
 def gen_interval(rng, k):
+    if rng.random() < 0.12:
+        # an exact bound and a float bound a hair apart: rounding the float to the display precision must not carry it across
+        q = Fraction(rng.randrange(1, 40), rng.choice([3, 7, 9, 11, 13, 6, 17]))
+        if q.denominator == 1:
+            q = q + Fraction(1, 3)
+        eps = 10.0 ** -rng.randrange(5, 13) * max(1.0, float(q))
+        if rng.random() < 0.5:
+            return k.I(q, float(q) + eps)
+        lo = float(q) - eps
+        return k.I(lo, q) if Fraction(lo) <= q else k.I(q, q)
     a, b = gen_num(rng, big=False), gen_num(rng, big=False)
     if Fraction(a) > Fraction(b):
         a, b = b, a
@@ -418,13 +428,18 @@ class Bad(Exception):
     pass
 
 
+REENTRY_TEXT = [False]      # set while the RE-ENTRY text (not the displayed text) is being read
+
+
 def read_float_text(text, v, P, slack=Fraction(0)):
     """the decimal numeral `text` denotes the float v to P significant digits"""
     if v != v or v in (float("inf"), float("-inf")):
         raise Bad("non-finite float shown as %r" % text)
     if not DEC_RE.fullmatch(text):
         raise Bad("not a decimal numeral: %r" % text)
-    if sig_digits(text) > P:
+    if sig_digits(text) > P and not REENTRY_TEXT[0]:
+        # (the digit limit is a claim about DISPLAYED text; the re-entry text only has to evaluate to the value — to the
+        # displayed precision for floats — so more digits there are more than is promised, never less)
         raise Bad("%r shows %d significant digits, precision is %d" % (text, sig_digits(text), P))
     d = Fraction(Decimal(text))
     q = Fraction(v)
@@ -919,7 +934,11 @@ def _check(ctx, rng, R, k, prec, names_sx, I):
         rt = rs[1]
         # the re-entry text read as text: denotes the value too (element syntax)
         try:
-            read_elem(k, rt, v, P)
+            REENTRY_TEXT[0] = True
+            try:
+                read_elem(k, rt, v, P)
+            finally:
+                REENTRY_TEXT[0] = False
         except Bad as e:
             ctx.violation("reentry-text:" + kd, "precision=%s; %s" % (N, desc), "re-entry text denoting the value: " + str(e), rt[:200], how)
         except Exception as e:
